@@ -267,3 +267,7 @@ PROPERTY = Property(
         "strictness is asserted only where the expected gap exceeds 1000x the rounding floor (a member whose update is below one ulp cannot be strictly ordered)",
     ],
 )
+
+from vf import opt as _opt  # noqa: E402
+
+PROPERTY.clauses.append(_opt.optimised("C05", next(c for c in PROPERTY.clauses if c.name == "a-first-last-direction-proportional"), quick=64, thorough=640))
